@@ -4,5 +4,6 @@ CHECKS = {
     "C02": ("worlds.w1_engine", "get_check"),
     "C03": ("worlds.w1_engine", "get_check"),
     "C04": ("worlds.w1_engine", "get_check"),
+    "C05": ("worlds.w1_specs", "get_check"),
     "C12": ("worlds.w1_rules", "get_check"),
 }
